@@ -12,7 +12,8 @@ Open Scope Z_scope.
 (* Full statement of the first sentence of C18, for any clock bounds: an accepted assertion has a supported format and
    there is a key - the first hit for its sign-key id, trusted before stored - that belongs to the declared authority,
    passes the expiry check, is valid at the assertion's timestamp (if any), admits the assertion by its constraints, and
-   `verify` holds for that key on exactly the assertion's content and decoded signature. *)
+   `verify` holds for that key on exactly the assertion's content and signature core (the OpenPGP signature packet
+   with its unhashed subpacket area emptied - what verification reads). *)
 Theorem C18_accept_implies_partial : forall verify tr st e l a, check verify tr st e l a = true ->
   a_supported a = true /\
   exists k, find_key tr st (a_sign_key a) = Some k /\
@@ -21,7 +22,7 @@ Theorem C18_accept_implies_partial : forall verify tr st e l a, check verify tr 
     valid_assuming k e l = true /\
     (forall t, a_timestamp a = Some t -> valid_at k t = true) /\
     can_sign k a = true /\
-    verify (k_id k) (a_content a) (a_sig a) = true.
+    verify (k_id k) (a_content a) (a_sig_core a) = true.
 Proof. exact accept_implies. Qed.
 Print Assumptions C18_accept_implies_partial.
 
@@ -30,7 +31,7 @@ Theorem C18_accept_now_partial : forall verify tr st now a, check_now verify tr 
   exists k, find_key tr st (a_sign_key a) = Some k /\ k_account k = a_authority a /\
     k_since k <= now /\ (forall u, k_until k = Some u -> now < u) /\
     (forall t, a_timestamp a = Some t -> k_since k <= t /\ forall u, k_until k = Some u -> t < u) /\
-    can_sign k a = true /\ verify (a_sign_key a) (a_content a) (a_sig a) = true.
+    can_sign k a = true /\ verify (a_sign_key a) (a_content a) (a_sig_core a) = true.
 Proof. exact accept_now_implies. Qed.
 Print Assumptions C18_accept_now_partial.
 
@@ -94,14 +95,37 @@ Print Assumptions C18_trusted_first.
 (* Second sentence of C18 - PARTIAL (idealised signature). If only the triples in G (everything the private keys ever
    produced) verify, then every assertion whose (sign key, content, decoded signature) is not in G is rejected, whatever
    the keys and the clock: any change of a byte of the content or of the decoded signature of a genuine assertion is
-   rejected unless the result is another genuine assertion. What is missing for the full statement: that RSA/SHA-512
+   rejected unless the result is another genuine assertion (content and signature CORE; see the refutation below for
+   the rest of the decoded signature). What is missing for the full statement: that RSA/SHA-512
    signatures in OpenPGP packets satisfy the hypothesis (they are an oracle here; the driver checks the conclusion on
    the real code for byte and structural mutations). *)
 Theorem C18_any_mutation_rejected_partial : forall verify (G : list (bytes * bytes * bytes)),
   (forall kid c s, verify kid c s = true -> In (kid, c, s) G) ->
-  forall tr st e l a, ~ In (a_sign_key a, a_content a, a_sig a) G -> check verify tr st e l a = false.
+  forall tr st e l a, ~ In (a_sign_key a, a_content a, a_sig_core a) G -> check verify tr st e l a = false.
 Proof. exact mutation_rejected_gen. Qed.
 Print Assumptions C18_any_mutation_rejected_partial.
+
+(* The full second sentence (`changing the decoded signature makes the assertion be rejected`) is FALSE of the faithful
+   model and of the real code: bytes of the decoded signature outside the signature core (the unhashed subpacket area
+   of the OpenPGP packet, which the signature hash does not cover) can be changed freely. KNOWN_FINDINGS key
+   sig-unhashed-subpacket; the driver adds an unhashed private-use subpacket to a genuine signature and the real
+   Database.Check / Add accept the result on every run. *)
+Theorem C18_decoded_signature_mutation_refuted : exists verify tr st now a a',
+  a_sig a' <> a_sig a /\ a_content a' = a_content a /\
+  check_now verify tr st now a = true /\ check_now verify tr st now a' = true.
+Proof.
+  exists (ideal_verify (bs "KEYID", bs "content", bs "core")), [], [mkKey (bs "KEYID") (bs "brand") 100 (Some 200) []], 150,
+    (mkA true (bs "brand") (bs "KEYID") None [] (bs "content") (bs "sig") (bs "core")),
+    (mkA true (bs "brand") (bs "KEYID") None [] (bs "content") (bs "sig+unhashed") (bs "core")).
+  repeat split. discriminate.
+Qed.
+Print Assumptions C18_decoded_signature_mutation_refuted.
+
+Theorem C18_sig_outside_core_ignored : forall verify tr st e l a s',
+  check verify tr st e l (mkA (a_supported a) (a_authority a) (a_sign_key a) (a_timestamp a) (a_headers a) (a_content a) s' (a_sig_core a))
+  = check verify tr st e l a.
+Proof. exact sig_outside_core_ignored. Qed.
+Print Assumptions C18_sig_outside_core_ignored.
 
 (* the verify instance used by the correspondence satisfies that hypothesis for G = [the genuine triple] *)
 Theorem C18_ideal_instance : forall signed kid c s, ideal_verify signed kid c s = true -> In (kid, c, s) [signed].
@@ -111,15 +135,15 @@ Print Assumptions C18_ideal_instance.
 (* ------------------------------------------------------------------ non-vacuity *)
 Definition ex_key := mkKey (bs "KEYID") (bs "brand") 100 (Some 200) [[(bs "type", bs "model"); (bs "model", bs "m1")]].
 Definition ex_a := mkA true (bs "brand") (bs "KEYID") (Some 150) [(bs "type", bs "model"); (bs "model", bs "m1")]
-                       (bs "content") (bs "sig").
+                       (bs "content") (bs "sig") (bs "sig").
 Definition ex_signed := (bs "KEYID", bs "content", bs "sig").
 Example C18_ex_accepted : check_now (ideal_verify ex_signed) [] [ex_key] 199 ex_a = true.
 Proof. reflexivity. Qed.
 Example C18_ex_expired : check_now (ideal_verify ex_signed) [] [ex_key] 200 ex_a = false.
 Proof. reflexivity. Qed.
 Example C18_ex_mutated : check_now (ideal_verify ex_signed) [] [ex_key] 199
-  (mkA true (bs "brand") (bs "KEYID") (Some 150) [(bs "type", bs "model"); (bs "model", bs "m1")] (bs "contenT") (bs "sig")) = false.
+  (mkA true (bs "brand") (bs "KEYID") (Some 150) [(bs "type", bs "model"); (bs "model", bs "m1")] (bs "contenT") (bs "sig") (bs "sig")) = false.
 Proof. reflexivity. Qed.
 Example C18_ex_constraint : check_now (ideal_verify ex_signed) [] [ex_key] 199
-  (mkA true (bs "brand") (bs "KEYID") (Some 150) [(bs "type", bs "model"); (bs "model", bs "m2")] (bs "content") (bs "sig")) = false.
+  (mkA true (bs "brand") (bs "KEYID") (Some 150) [(bs "type", bs "model"); (bs "model", bs "m2")] (bs "content") (bs "sig") (bs "sig")) = false.
 Proof. reflexivity. Qed.
